@@ -78,6 +78,7 @@ TREES = {
     "unit-dims": {"u": (1, 1), "v": (3, 1)},
     "rank3": {"t": (3, 2, 2)},
     "mixed": {"w": (6, 4), "b": (4,)},
+    "matrix+scalar": {"w": (4, 3), "s": ()},
 }
 
 CONFIGS = {
@@ -96,6 +97,8 @@ CONFIGS = {
     "fd-no-reuse": dict(compression_rank=1, block_size=8, frequent_directions=True),
     "fd-avg-grad": dict(compression_rank=1, block_size=8, frequent_directions=True, reuse_preconditioner=True, average_grad=True,
                         skip_preconditioning_rank_lt=2),
+    "fd-metrics": dict(compression_rank=1, block_size=8, frequent_directions=True, reuse_preconditioner=True, generate_fd_metrics=True,
+                       skip_preconditioning_rank_lt=2),
     "fd-reset": dict(compression_rank=1, block_size=8, frequent_directions=True, reuse_preconditioner=True, reset_preconditioner=True),
 }
 
